@@ -44,6 +44,26 @@ CLAIMED = {
   design="5/C19"),
 }
 
+
+CLAIMED.update({
+ "C07": dict(
+  text="The real updateImports + restoreNode/restoreIdent are executed on files with one import block of 0-2 specs (name kinds none / symbolic alias / dot / blank, optional cgo spec), 1-2 (thorough 3) identifiers whose path is empty, local or one of three pool paths (plain, dotted, slashed), an optional alias override, and a resolver with symbolic package names, so that name conflicts, renaming and precedence are solver-decided. Obligations on the restored ast: each non-local identifier is a selector on the name bound by the single import of its path (bare only under a dot import), local/empty-path identifiers are bare, each used path is imported exactly once, blank and cgo imports are kept, unused ones removed, nothing else imported, ordinary import names pairwise distinct, override > source alias > resolved name. A path imported twice under two names must end up imported once.",
+  note="Paths come from a concrete pool (map keys concrete), names/aliases are one symbolic byte. Bounds as stated; gopackages/gobuild resolvers (I/O) and the printed text (contract PC) are outside. 'Blocks that need no addition keep order and decorations' is checked by C08's no-op harness.",
+  design="5/C07"),
+ "C08": dict(
+  text="Part (2) only: for sources that already import exactly what they use (1-2 specs incl. aliased, dot, blank and cgo specs with comments and spacing, non-colliding effective names, accurate resolver with symbolic names) the real updateImports leaves the import declaration deeply equal to what it was (specs, aliases, decorations, spacing, parentheses), the declaration list unchanged, and reports each package under its source name.",
+  note="The qualified-identifier collapse/expand round trip through link()/mergeDecorations (part 1) and re-decoration of printed output are not covered yet.",
+  design="5/C08"),
+ "C17": dict(
+  text="Fault position enumerated by forking over every resolver call of the run: (a) restore: package-name resolver failing at call k during RestoreFile of files with 0-1 import specs and 1-2 (3) path-carrying identifiers; (b) decorate: identifier resolver failing at call k during DecorateFile of a positioned file with 1-2 (3) qualified selectors. Obligations: error returned and errors.Is(err, injected), no tree returned, no panic, input tree deeply equal to its snapshot, and a fresh restorer/decorator with a working resolver yields a result deeply equal to the failure-free run.",
+  note="The decorate-side harness is concrete apart from the failure position (file bytes and positions are fixed); the solver's share there is nil. Bounds as stated.",
+  design="5/C17"),
+ "C20": dict(
+  text="The real Package.save (the function behind Save/SaveWithResolver, with the writer injected as the code allows) over 1-3 decorated files with Filenames filled as DecorateNode does, symbolic package names, and a resolver or writer failing at a forked position: the write log is exactly one write per file before the first failure, in order, to the file's recorded path, with that file's own print; the error is returned and wraps the cause; nothing is written after it. go/format.Node is an uninterpreted function (contract PC); witnesses are replayed natively against the real printer.",
+  note="Byte-identity of unedited files is C01/C08 territory and not repeated; Load (go/packages I/O) is outside.",
+  design="5/C20"),
+})
+
 NOT_YET = "check not built yet in this round (work in progress; see DESIGN.md section 7 for the order)"
 
 def main():
